@@ -1704,6 +1704,7 @@ func judgeWrapper(h *wHist) ([]finding, wStats) {
 		probe = " probe=" + h.Probe
 	}
 	mergedTotal := 0
+	mergedAcross := map[int]bool{} // calls already reported as answered by another subject's execution
 	for _, c := range h.Calls {
 		m := method(h.Svc, c.Method)
 		name := h.Svc + "/" + c.Method
@@ -1731,6 +1732,7 @@ func judgeWrapper(h *wHist) ([]finding, wStats) {
 		if served != nil {
 			if served.Method != c.Method || served.Subject != c.Subject {
 				add("merged-across-subjects "+name+probe, fmt.Sprintf("call %d (%s for subject %q) was answered by execution %d of %s for subject %q", c.Idx, c.Method, c.Subject, served.ID, served.Method, served.Subject))
+				mergedAcross[c.Idx] = true
 				continue
 			}
 			if own != nil && c.ExecID != 0 && c.ExecID != own.ID {
@@ -1774,6 +1776,7 @@ func judgeWrapper(h *wHist) ([]finding, wStats) {
 					add("returned-before-execution-ended "+name, fmt.Sprintf("call %d (%s for subject %q) returned at %d with answer %q without executing, before any execution for that subject had ended", c.Idx, c.Method, c.Subject, c.Ret, c.Answer))
 				default:
 					add("merged-across-subjects "+name+probe, fmt.Sprintf("call %d (%s for subject %q) got answer %q although the inner provider ran no execution for that endpoint and subject", c.Idx, c.Method, c.Subject, c.Answer))
+					mergedAcross[c.Idx] = true
 				}
 				continue
 			}
@@ -1833,6 +1836,22 @@ func judgeWrapper(h *wHist) ([]finding, wStats) {
 			}
 		}
 	}
+	// session-update clause, other direction: whatever updates a caller's session carries after the call
+	// were made by an execution for the caller's OWN endpoint and subject (the scripted provider marks
+	// every value it writes with the id of the execution that wrote it)
+	for _, c := range h.Calls {
+		if c.sess == nil || c.After == nil || c.Before == nil || mergedAcross[c.Idx] {
+			continue
+		}
+		for _, mk := range sessionMarks(c.Before, c.After) {
+			e := byID[mk.id]
+			if e == nil || (e.Method == c.Method && e.Subject == c.Subject) {
+				continue
+			}
+			add("session-updated-by-another-subjects-execution "+h.Svc+"/"+c.Method+probe, fmt.Sprintf("call %d (%s for subject %q): after the call its session's %s carries the value written by execution %d, which ran %s for subject %q", c.Idx, c.Method, c.Subject, mk.field, e.ID, e.Method, e.Subject))
+			break
+		}
+	}
 	// at most one execution at a time per endpoint and subject
 	per := map[string][]*wExec{}
 	for _, e := range h.Execs {
@@ -1855,6 +1874,43 @@ func judgeWrapper(h *wHist) ([]finding, wStats) {
 	}
 	st.desc = fmt.Sprintf("%s|%s|%s|%s|calls=%d|execs=%d|merged=%d", h.Svc, h.Class, h.Probe, strings.Join(ms, "+"), len(h.Calls), len(h.Execs), mergedTotal)
 	return fs, st
+}
+
+type sessMark struct {
+	field string
+	id    int64
+}
+
+// sessionMarks lists the execution ids found in the values of a session's updatable fields after a
+// call (token / group marks; deadlines and grace start the scripted provider sets to base + id seconds).
+func sessionMarks(before, after *sessSnap) []sessMark {
+	var out []sessMark
+	for _, g := range after.Groups {
+		if id := parseMark(g); id != 0 {
+			out = append(out, sessMark{"Groups", id})
+		}
+	}
+	if strings.HasPrefix(after.AccessToken, "access-token-of-") {
+		if id := parseMark(after.AccessToken); id != 0 {
+			out = append(out, sessMark{"AccessToken", id})
+		}
+	}
+	stamp := func(field string, base time.Time) {
+		if before.field(field) == after.field(field) {
+			return
+		}
+		t, err := time.Parse(time.RFC3339, after.field(field))
+		if err != nil {
+			return
+		}
+		if d := t.Sub(base); d > 0 && d < 1000000*time.Second && d%time.Second == 0 {
+			out = append(out, sessMark{field, int64(d / time.Second)})
+		}
+	}
+	stamp("ValidDeadline", extT)
+	stamp("RefreshDeadline", extT)
+	stamp("GracePeriodStart", graceNew)
+	return out
 }
 
 // =====================================================================================
@@ -2177,7 +2233,7 @@ func runSlowSlice(rep *vh.Report, env vh.Env) {
 func TestProp(t *testing.T) {
 	env := vh.GetEnv()
 	rep := vh.NewReport("C16", "exploration")
-	rep.Rule("generic: histories of N in 2..16 callers over K in 1..3 keys of singleflight.Group.Do; steered (per key a plan of waves: leader held inside fn until the wave's followers have recorded their call stamp, then released; next wave after all returned or immediately; error waves) and unsteered stress (GOMAXPROCS 2/4/16, spinner goroutines, 1..5 calls per goroutine); every execution has a unique id and [start,end] stamps, every caller [call,return] stamps; distinct = observed interleaving signature (mode + per key the sequence of executions with the number of callers that received each and its error flag). wrappers: per coalesced method of both services, scenarios same-subject (held leader, followers, late-comers; each scripted outcome) / different-subject probes / same string on another endpoint against a scripted inner provider; distinct = service|class|probe|outcomes|calls|executions|merged. e2e: N concurrent browser requests with one cookie whose validation/refresh is due against a fake authenticator holding the answer; distinct = kind|N|authenticator calls|served")
+	rep.Rule("generic: histories of N in 2..16 callers over K in 1..3 keys of singleflight.Group.Do; steered (per key a plan of waves: leader held inside fn until the wave's followers have recorded their call stamp, then released; next wave after all returned or immediately; error waves) and unsteered stress (GOMAXPROCS 2/4/16, spinner goroutines, 1..5 calls per goroutine); every execution has a unique id and [start,end] stamps, every caller [call,return] stamps; distinct = observed interleaving signature (mode + per key the sequence of executions with the number of callers that received each and its error flag). wrappers: per coalesced method of both services, scenarios same-subject (held leader, followers, late-comers; each scripted outcome) / different-subject probes / same string on another endpoint against a scripted inner provider; distinct = service|class|probe|outcomes|calls|executions|merged. e2e: N concurrent browser requests with one cookie whose validation/refresh is due against a fake authenticator holding the answer; distinct = kind|N|authenticator calls|served. adversarial: per coalesced method (wrappers) and for Group.Do (generic) overlapping call pairs on two DIFFERENT subjects / keys that collide under a cheap key derivation (32-bit hash sums found by birthday search at run time, truncation, normalisation, anagram); same descriptors as the wrapper / generic streams with the relation as probe")
 	rep.Assume("stamps come from one atomic counter per history: 'A returned before B called' is decided by stamp order (sound: the stamps are taken after Do returned / before Do is called)")
 	rep.Assume("followers are 'very likely' parked in Do when the leader is released (call stamp recorded + yields + a 20-300us pause); a follower that was not parked executes afresh, which the oracle accepts; the number of merged calls is measured and has a floor")
 	rep.Assume("the inner providers are scripted fakes that mutate the session they are handed the way SSOProvider / OktaProvider do; the middlewares and singleflight are the shipped code")
@@ -2186,8 +2242,23 @@ func TestProp(t *testing.T) {
 	rep.Assume("slow-leader slice (generic group and every coalesced wrapper method; all cases run in parallel): the leader is held inside fn / the inner provider for 1 s, 2.5 s, 4 s and 6 s of real time, followers are launched as soon as it is inside, late-comers after the release; the real-time hold only creates the opportunity (a waiter that gives up), the verdict is the unchanged history oracle; a caller that never returns is the watchdog's business (inconclusive)")
 	rep.Assume("Revoke's subject is taken to be the access token (the wrapper's key); sessions sharing an access token but not a refresh token are not generated")
 
+	rep.Assume("adversarial subjects (streams c16-adversarial-wrapper for every coalesced method of both services through the real middleware, c16-adversarial-generic for Group.Do): two DIFFERENT subjects / keys overlap (the first is held inside the provider while the second arrives) and are answered differently by the scripted provider; the pairs (a) have equal sums under FNV-1a/32, FNV-1/32, CRC-32 IEEE and Castagnoli, Adler-32, the 31-multiplier string hash, the byte sum and the byte xor - found at run time per (seed) by a birthday search over 400000 16-character candidates per function (for FNV also per prefix: bare subject, quoted subject, '<endpoint>/' in front of either; the other functions' equal-length collisions hold inside any common prefix and suffix), placed in a token 'ya29.a0AfH6SM<x>', an e-mail '<x>@corp.test' or a group name 'team-<x>'; (b) agree in exactly their first / last 8, 16, 32 bytes; (c) are equal after lower-casing, trimming white space, URL-unescaping, dropping non-alphanumerics; (d) are anagrams. All of them are different strings, i.e. different subjects: none is a don't-care. How a pair was chosen plays no part in the verdict (call log: both subjects reach the provider; answer; session updates carry the marks of an execution for the caller's own subject). Only pairs whose two executions were observed in flight together count towards the floors")
+	rep.Assume("out of reach: a coalescing key derived through a 64-bit or cryptographic hash, a seeded hash (hash/maphash), or a 32-bit FNV over a serialisation of (e-mail, groups) / a composite key that does not start with one of the prefixes searched - collisions for those cannot be produced within the budget")
+
 	replaying := env.Replay != ""
 	t0 := time.Now()
+
+	// ---- collision search for the adversarial streams: in the background
+	var pool *collisionPool
+	poolDone := make(chan struct{})
+	_, skipAW := env.Only("c16-adversarial-wrapper")
+	_, skipAG := env.Only("c16-adversarial-generic")
+	go func() {
+		defer close(poolDone)
+		if !skipAW || !skipAG {
+			pool = buildPool(env.Seed)
+		}
+	}()
 
 	// ---- slow-leader slice: runs in the background, concurrently with everything below
 	slowDone := make(chan struct{})
@@ -2272,6 +2343,33 @@ func TestProp(t *testing.T) {
 	}
 	rep.Extra("wall_generic_and_wrappers_s", time.Since(t0).Seconds())
 
+	// ---- (A') (B') adversarial subjects
+	<-poolDone
+	if pool != nil {
+		if pool.err != nil {
+			rep.Inconclusive("adversarial streams: hash self-check failed: " + pool.err.Error())
+		} else {
+			for _, f := range hashFns {
+				n := 0
+				for k, ps := range pool.pairs {
+					if strings.HasPrefix(k, f.name+"|") {
+						n += len(ps)
+					}
+				}
+				rep.Count("adversarial_collision_pairs_found "+f.name, n)
+			}
+			rep.Count("adversarial_collision_searches", pool.searches)
+			rep.Count("adversarial_collision_searches_without_a_pair", len(pool.empty))
+			if len(pool.empty) > 0 {
+				rep.Inconclusive("adversarial streams: no colliding pair found for " + strings.Join(pool.empty, ", "))
+			}
+			rep.Extra("wall_collision_search_s", pool.wall.Seconds())
+			runAdvGenericStream(rep, env, pool)
+			runAdvWrapperStream(rep, env, pool)
+		}
+	}
+	rep.Extra("wall_through_adversarial_s", time.Since(t0).Seconds())
+
 	// ---- (C) e2e
 	if only, skip := env.Only("c16-e2e"); !skip {
 		ps, err := sut.NewProxyStack(sut.ProxyOpts{Upstreams: []sut.UpstreamSpec{{Service: "c16svc", From: e2eHost, AllowedGroups: []string{"g1", "g2"}},
@@ -2307,6 +2405,7 @@ func TestProp(t *testing.T) {
 		rep.Floor("generic_slow-leader_fresh_after_completion", env.Pick(10, 40))
 		rep.Floor("slow_leader_wrapper_merged_calls", env.Pick(16, 64))
 		rep.Floor("slow_leader_wrapper_latecomer_fresh_executions", env.Pick(16, 64))
+		adversarialFloors(rep, env)
 	}
 	if st := rep.Finish(); st == "violated" {
 		t.Fatalf("C16 violated")
